@@ -334,3 +334,151 @@ func init() {
 		},
 	})
 }
+
+// entryC10 emits the fastgo codec harnesses.
+func entryC10(g *harnessGen, pkg string) string {
+	var sb strings.Builder
+	sb.WriteString(entryC02(g, pkg))
+	for _, s := range g.f.Structs {
+		n, gn := s.Name, goName(s.Name)
+		fmt.Fprintf(&sb, `// H_C10_append_%[1]s: FastAppend writes a reference encoding of the value and BLength is its length.
+func H_C10_append_%[1]s(n int) {
+	zzLen = n
+	v := zzSym_%[1]s(zzDepth)
+	want := zzFrom_%[1]s(v)
+	b := v.FastAppend(nil)
+	zzrt.Assert(len(b) == v.BLength(), "BLength equals the number of bytes FastAppend writes")
+	buf := make([]byte, v.BLength())
+	zzrt.Assert(v.FastWrite(buf) == len(b), "FastWrite reports the same length")
+	r := &zzReader{b: b}
+	got := zzDec(r, zzT_%[1]s)
+	zzrt.Assert(!r.bad && len(r.b) == 0, "FastAppend produces a well formed encoding of the declared schema")
+	zzAssertEq(zzT_%[1]s, got, want, "FastAppend")
+	r2 := &zzReader{b: buf}
+	zzAssertEq(zzT_%[1]s, zzDec(r2, zzT_%[1]s), want, "FastWrite")
+	zzrt.Cover("end")
+}
+
+// H_C10_fastread_%[1]s: FastRead of the reference encoding (what the standard Write produces) yields the value.
+func H_C10_fastread_%[1]s(n int) {
+	zzLen = n
+	v := zzSym_%[1]s(zzDepth)
+	want := zzFrom_%[1]s(v)
+	b := zzEnc(nil, zzT_%[1]s, want)
+	p := New%[2]s()
+	off, err := p.FastRead(b)
+	zzrt.Assert(err == nil, "FastRead accepts the reference encoding")
+	zzrt.Assert(off == len(b), "FastRead consumes the whole struct")
+	zzAssertEq(zzT_%[1]s, zzFrom_%[1]s(p), want, "FastRead")
+	zzrt.Cover("end")
+}
+
+// H_C10_agree_%[1]s: on perturbed encodings (unknown field / retagged field / deleted field)
+// FastRead and the standard Read agree on failure and on the object.
+func H_C10_agree_%[1]s(kind, i int) {
+	if i >= len(zzSt_%[1]s.Fields) {
+		return
+	}
+	zzLen = 1
+	f := zzSt_%[1]s.Fields[i]
+	v := zzSym_%[1]s(zzDepth)
+	want := zzFrom_%[1]s(v)
+	var m zzMod
+	switch kind {
+	case 0:
+		id := zzrt.Int16("uid")
+		zzrt.Assume(!zzT_%[1]s.hasField(id))
+		wt := zzWireTypes[zzrt.Choose("wt", len(zzWireTypes))]
+		m = zzMod{Insert: true, InsertAt: i, Extra: zzFieldBytes(wt, id)}
+	case 1:
+		if want.field(f.ID) == nil {
+			return
+		}
+		wt := zzWireTypes[zzrt.Choose("wt", len(zzWireTypes))]
+		zzrt.Assume(wt != zzWire(f.T))
+		m = zzMod{Retag: true, RetagID: f.ID, RetagBytes: zzFieldBytes(wt, f.ID)}
+	default:
+		if want.field(f.ID) == nil {
+			return
+		}
+		m = zzMod{Skip: true, SkipID: f.ID}
+	}
+	b := zzEncMod(zzT_%[1]s, want, m)
+	ps, pf := New%[2]s(), New%[2]s()
+	errS := ps.Read(zzProtoOver(b))
+	_, errF := pf.FastRead(b)
+	zzrt.Assert((errS == nil) == (errF == nil), "FastRead fails exactly when the standard Read fails")
+	if errS == nil {
+		zzAssertEq(zzT_%[1]s, zzFrom_%[1]s(pf), zzFrom_%[1]s(ps), "FastRead vs Read")
+	}
+	zzrt.Cover("end")
+}
+
+// H_C10_trunc_%[1]s: every proper prefix of a valid encoding makes FastRead return an error (no panic).
+func H_C10_trunc_%[1]s(seed, n int) {
+	zzLen = n
+	zzL = &zzFixedLeaves{s: uint64(seed)} // the value is fixed: only the cut position is free
+	v := zzSym_%[1]s(zzDepth)
+	zzL = zzSymLeaves{}
+	b := zzEnc(nil, zzT_%[1]s, zzFrom_%[1]s(v))
+	cut := zzrt.Choose("cut", len(b))
+	p := New%[2]s()
+	_, err := p.FastRead(b[:cut:cut])
+	zzrt.Assert(err != nil, "FastRead reports truncated input")
+	zzrt.Cover("end")
+}
+
+// H_C10_corrupt_%[1]s: one type byte of a valid encoding is replaced by a free byte: FastRead returns (no panic).
+func H_C10_corrupt_%[1]s(seed, n int) {
+	zzLen = n
+	zzL = &zzFixedLeaves{s: uint64(seed)} // the value is fixed: position and replacement byte are free
+	v := zzSym_%[1]s(zzDepth)
+	zzL = zzSymLeaves{}
+	want := zzFrom_%[1]s(v)
+	b := zzEnc(nil, zzT_%[1]s, want)
+	var offs []int
+	zzTypeOffsets(zzT_%[1]s, want, 0, &offs)
+	k := offs[zzrt.Choose("pos", len(offs))]
+	b[k] = zzrt.Byte("t")
+	p := New%[2]s()
+	_, _ = p.FastRead(b)
+	zzrt.Cover("end")
+}
+
+`, n, gn)
+	}
+	return sb.String()
+}
+
+func c10Harnesses(prog *MProgram) []Harness {
+	var hs []Harness
+	for _, f := range prog.Files {
+		for _, s := range f.Structs {
+			nf := int64(len(s.Fields)) - 1
+			hs = append(hs,
+				Harness{Func: "H_C10_append_" + s.Name, Quick: rng(0, 1), Thorough: rng(0, 2), Covers: []string{"end"}},
+				Harness{Func: "H_C10_fastread_" + s.Name, Quick: rng(0, 1), Thorough: rng(0, 2), Covers: []string{"end"}},
+				Harness{Func: "H_C10_agree_" + s.Name, Quick: tuples(seq(0, 2), seq(0, nf)), Covers: []string{"end"}},
+				Harness{Func: "H_C10_trunc_" + s.Name, Quick: tuples(seq(1, 3), seq(1, 1)), Thorough: tuples(seq(1, 8), seq(0, 2)), Covers: []string{"end"}},
+				Harness{Func: "H_C10_corrupt_" + s.Name, Quick: tuples(seq(1, 3), seq(1, 1)), Thorough: tuples(seq(1, 8), seq(1, 2)), Covers: []string{"end"}, AllowInconclusive: []string{"hugealloc"}},
+			)
+		}
+	}
+	return hs
+}
+
+func init() {
+	register(&Prop{
+		ID:        "C10",
+		Functions: []string{"generated BLength / FastAppend / FastWrite / FastWriteNocopy / FastRead (k-*.go) and the standard Read/Write of the fastgo backend", "cloudwego/gopkg v0.2.0 protocol/thrift BinaryProtocol (interpreted; Skip replaced by a safe-Go model with the same contract)", "reference codec (harness)"},
+		Bounds:    "corpus a.thrift under -g fastgo; values as in C02 (n<=1 quick, <=2 thorough); robustness on 3 (thorough 8) fixed pseudo-random values per struct-like: every truncation point of the reference encoding; every type byte (field header, STOP, list/set element type, map key/value type) replaced by a FREE byte; unknown / retagged / deleted field agreement with the standard Read",
+		Assumptions: []string{"gopkg's BinaryProtocol.Skip (raw pointer walk) is replaced by the safe-Go model /verif/harness/gencommon/zzskip (a defect inside Skip itself would be invisible, its over-run behaviour is mirrored)", "an allocation with a symbolic size >= 2^24 ends the path (reported as tolerated 'hugealloc', only in the corruption harness)", "the programs dimension is the designed corpus"},
+		Variants: []*Prop{
+			{Label: "fastgo", Pkg: "zzgen/a", NoOverlay: true, Diff: []string{"D_GEN_roundtrip"}, Prepare: func(r *runner) error {
+				prog := corpusMain()
+				r.spec.Harnesses = c10Harnesses(prog)
+				return prepareGenerated(r, prog, genConfig{Backend: "fastgo"}, entryC10)
+			}},
+		},
+	})
+}
